@@ -142,6 +142,17 @@ def main():
                     kk = k if algn != "LOBPCG" else min(k, len(np.asarray(vals)))
                     tol = 1e-6 if algn not in ("PowerIteration", "LOBPCG") else 1e-3
                     check_pairs(algn, M, vals, vecs, kk, which, inp, herm=herm and algn != "LOBPCG", tol=tol)
+    elif eng == "EIGAUTO":
+        M = np.diag([1.0, -2.0, 5.0, 3.0])
+        op = cola.SelfAdjoint(Dense(M))
+        for kw in (dict(tol=1e-6), dict(max_iters=50), dict(tol=1e-8, max_iters=500, pbar=False)):
+            for k, which in ((1, "LM"), (2, "LM"), (1, "SM"), (4, "SM")):
+                inp = f"eig(SelfAdjoint(Dense(diag(1,-2,5,3))), k={k}, which={which}, Auto({kw}))"
+                try:
+                    vals, vecs = eig(op, k, which, Auto(**kw))
+                except Exception as e:
+                    found(clause="the automatic choice accepts the settings of an Auto object", input=inp, observed=f"{type(e).__name__}: {str(e)[:200]}", expected="eigenpairs")
+                check_pairs("auto", M, vals, vecs, k, which, inp, herm=False, tol=1e-3)
     elif eng == "EIGMAXMIN":
         for trial in range(4):
             n = 6
